@@ -264,3 +264,60 @@ func customLine(t []string) string {
 func init() {
 	handlers["custom"] = customLine
 }
+
+// customlazy <seed> <hexbody> : a context with the custom term E<n> (value 2n) evaluates the same text four ways — directly; through RunExpr;
+// as a computed value restored from JSON; as the body of a function restored from JSON — every way compiles the text with the syntaxes the
+// context has registered.  Prints the four outcomes and how often the handler ran.
+func customLazyLine(t []string) string {
+	if len(t) != 3 {
+		return "bad-op"
+	}
+	body, ok := unhx(t[2])
+	if !ok {
+		return "bad-op"
+	}
+	calls := 0
+	mk := func() *ds.Context {
+		vm, _ := newVM(ds.RollConfig{OpCountLimit: 30000}, t[1])
+		_ = vm.RegCustomDice(`E(\d+)`, func(ctx *ds.Context, groups []string, payload any) (*ds.VMValue, string, error) {
+			calls++
+			n, _ := strconv.Atoi(groups[1])
+			return ds.NewIntVal(ds.IntType(2 * n)), "", nil
+		})
+		return vm
+	}
+	show := func(v *ds.VMValue, err error) string {
+		if err != nil {
+			return "err:" + hx(err.Error())
+		}
+		return canon(v)
+	}
+	return safely(func() string {
+		var outs []string
+		a := mk()
+		err := a.Run(body)
+		outs = append(outs, show(a.Ret, err))
+		b := mk()
+		v, err := b.RunExpr(body, false)
+		outs = append(outs, show(v, err))
+		for _, doc := range []string{`{"t":5,"v":{"expr":%s}}`, `{"t":8,"v":{"expr":%s,"name":"x","params":[]}}`} {
+			c := mk()
+			q, _ := json.Marshal(body)
+			val, e := ds.VMValueFromJSON([]byte(fmt.Sprintf(doc, q)))
+			if e != nil {
+				outs = append(outs, "decode-err")
+				continue
+			}
+			c.Attrs.Store("x", val)
+			prog := "x"
+			if strings.Contains(doc, `"t":8`) {
+				prog = "x()"
+			}
+			err := c.Run(prog)
+			outs = append(outs, show(c.Ret, err))
+		}
+		return strings.Join(outs, " | ") + fmt.Sprintf(" calls=%d", calls)
+	})
+}
+
+func init() { handlers["customlazy"] = customLazyLine }
